@@ -29,6 +29,13 @@ pub struct Case {
     /// non-empty: mixed use of one reader - entry true = read_record_set(), false = next(), cycled
     #[serde(default)]
     pub mix: Vec<bool>,
+    /// FASTQ only: sequence and quality line of every record end with different terminators (LF / CRLF); such
+    /// records are accepted by the reader (their lengths without terminators are equal)
+    #[serde(default)]
+    pub mixed_term: bool,
+    /// number of seeks (a few records back, to a true record position) performed while reading
+    #[serde(default)]
+    pub seeks: u8,
 }
 
 pub struct NoAlloc;
@@ -37,16 +44,38 @@ impl Prop for NoAlloc {
     type Case = Case;
     fn strategy(&self, _tier: Tier) -> BoxedStrategy<Case> {
         boxed(
-            (gen::format(), 100u16..1500, 0u8..40, prop_oneof![2 => Just(0u8), 2 => 1u8..4, 1 => 4u8..20], any::<bool>(), 1u8..6, 0u8..30, gen::chunks(), any::<bool>(), prop_oneof![2 => Just(vec![]), 1 => proptest::collection::vec(any::<bool>(), 2..7)]).prop_map(
-                |(format, n_records, seq_len, jitter, crlf, factor, slack, chunks, sets, mix)| Case { format, n_records, seq_len, jitter, crlf, factor, slack, chunks, sets, mix },
+            (gen::format(), 100u16..1500, 0u8..40, prop_oneof![2 => Just(0u8), 2 => 1u8..4, 1 => 4u8..20], any::<bool>(), 1u8..6, 0u8..30, gen::chunks(), any::<bool>(), prop_oneof![2 => Just(vec![]), 1 => proptest::collection::vec(any::<bool>(), 2..7)], (prop::bool::weighted(0.25), prop_oneof![3 => Just(0u8), 1 => 1u8..6])).prop_map(
+                |(format, n_records, seq_len, jitter, crlf, factor, slack, chunks, sets, mix, (mixed_term, seeks))| Case { format, n_records, seq_len, jitter, crlf, factor, slack, chunks, sets, mix, mixed_term: mixed_term && format == Format::Fastq, seeks },
             ),
         )
     }
 
     fn check(&self, c: &Case, ctx: &mut Ctx) -> CheckResult {
         let f = fmt_name(c.format);
-        let input = super::c09::long_doc(c.format, c.n_records as usize, c.seq_len as usize, c.jitter as usize, c.crlf);
-        let m = Model::build(c.format, &input);
+        let mut input = super::c09::long_doc(c.format, c.n_records as usize, c.seq_len as usize, c.jitter as usize, c.crlf);
+        if c.mixed_term && c.format == Format::Fastq {
+            // re-render: sequence line and quality line with different terminators, alternating per record
+            let all_lf: Vec<u8> = input.iter().copied().filter(|b| *b != b'\r').collect();
+            let mut out = Vec::with_capacity(all_lf.len() + c.n_records as usize);
+            for (li, line) in all_lf.split(|b| *b == b'\n').enumerate() {
+                if li == 4 * c.n_records as usize {
+                    break;
+                }
+                out.extend_from_slice(line);
+                let rec = li / 4;
+                let crlf = match li % 4 {
+                    1 => rec % 2 == 0,
+                    3 => rec % 2 == 1,
+                    _ => c.crlf,
+                };
+                if crlf {
+                    out.push(b'\r');
+                }
+                out.push(b'\n');
+            }
+            input = out;
+        }
+        let m = if c.mixed_term { Model::build_lenient(c.format, &input) } else { Model::build(c.format, &input) };
         ensure!(m.recs.len() == c.n_records as usize && m.term == Terminal::End, "harness/long-doc", "harness: document does not model as {} records", c.n_records);
         let max_e = m.recs.iter().map(|r| r.extent).max().unwrap_or(0);
         let cap = ((max_e + 1) * c.factor as usize + c.slack as usize).max(3);
@@ -56,6 +85,7 @@ impl Prop for NoAlloc {
         let warm = |i: usize| i >= 8 && m.recs[i].byte >= 2 * cap;
         let mut measured_calls = 0u64;
         let mut skipped_nondominated = 0u64;
+        let mut seeks_done = 0u64;
         let mut sink = 0usize;
         let mixed = !c.mix.is_empty() && c.mix.iter().any(|b| *b) && c.mix.iter().any(|b| !*b);
         let use_set = |call: usize| -> bool {
@@ -79,7 +109,18 @@ impl Prop for NoAlloc {
                 let mut set_cap: Option<usize> = None;
                 let mut i = 0usize;
                 let mut call = 0usize;
+                let mut seeks_left = c.seeks as usize;
                 while i < total {
+                    if seeks_left > 0 && i >= total / 2 && call % 7 == 3 {
+                        // seek a few records back (to a true record position); only the reads after it are measured
+                        seeks_left -= 1;
+                        let t = i.saturating_sub(3 + seeks_left);
+                        if rdr.seek(&fasta::Position::new(m.recs[t].line as u64, m.recs[t].byte as u64)).is_err() {
+                            fail!(format!("{}/{}/seek-failed", f, mode_name), "seek to record {} failed", t);
+                        }
+                        i = t;
+                        seeks_done += 1;
+                    }
                     if use_set(call) {
                         lines_now.clear();
                         let ln = &mut lines_now;
@@ -193,7 +234,17 @@ impl Prop for NoAlloc {
                 let mut set_cap: Option<usize> = None;
                 let mut i = 0usize;
                 let mut call = 0usize;
+                let mut seeks_left = c.seeks as usize;
                 while i < total {
+                    if seeks_left > 0 && i >= total / 2 && call % 7 == 3 {
+                        seeks_left -= 1;
+                        let t = i.saturating_sub(3 + seeks_left);
+                        if rdr.seek(&fastq::Position::new(m.recs[t].line as u64, m.recs[t].byte as u64)).is_err() {
+                            fail!(format!("{}/{}/seek-failed", f, mode_name), "seek to record {} failed", t);
+                        }
+                        i = t;
+                        seeks_done += 1;
+                    }
                     if use_set(call) {
                         let (res, allocs, bytes) = measured(|| match rdr.read_record_set(&mut set) {
                             Some(Ok(())) => {
@@ -275,6 +326,10 @@ impl Prop for NoAlloc {
         );
         ctx.class(&format!("{} {}", f, match mode_name { "next" => "next()", "sets" => "reused record set", _ => "mixed next() / read_record_set() on one reader" }));
         ctx.class_n("measured dominated calls", measured_calls);
+        ctx.class_n("seeks back to an earlier record during steady state", seeks_done);
+        if c.mixed_term {
+            ctx.class("FASTQ records whose sequence and quality line end with different terminators");
+        }
         ctx.class_n("skipped non-dominated calls", skipped_nondominated);
         if measured_calls >= 20 {
             ctx.nontrivial(c, c);
@@ -283,7 +338,7 @@ impl Prop for NoAlloc {
     }
 }
 
-pub const RULE: &str = "cases = (format, 100..1500 records of uniform or mildly varying shape, LF/CRLF, capacity = (largest extent + 1) x factor 1..5 + slack, chunk script, mode next() / one reused RecordSet / a generated mixture of both on one reader). Every call after a warm-up of max(8 records, 2 buffer capacities) whose observable shape is dominated by what the same reader / set already handled (lines per record, records per set, lines per slot) is measured with a counting global allocator (thread-local window around the call and the accessors head/seq/qual/seq_lines): it must perform 0 allocations; the record-set buffer capacity and the reader capacity (policy never asked) stay unchanged. Non-dominated calls are skipped and counted. Non-trivial = >= 20 measured dominated calls in the case. Distinct = hash(case).";
+pub const RULE: &str = "cases = (format, 100..1500 records of uniform or mildly varying shape, LF/CRLF, capacity = (largest extent + 1) x factor 1..5 + slack, chunk script, mode next() / one reused RecordSet / a generated mixture of both on one reader; optionally a few seeks back to earlier records in the second half; FASTQ optionally with different terminators on sequence and quality line). Every call after a warm-up of max(8 records, 2 buffer capacities) whose observable shape is dominated by what the same reader / set already handled (lines per record, records per set, lines per slot) is measured with a counting global allocator (thread-local window around the call and the accessors head/seq/qual/seq_lines): it must perform 0 allocations; the record-set buffer capacity and the reader capacity (policy never asked) stay unchanged. Non-dominated calls are skipped and counted. Non-trivial = >= 20 measured dominated calls in the case. Distinct = hash(case).";
 
 pub fn run(tier: Tier) -> i32 {
     let mut run = Run::new("C18", tier, "exploration");
